@@ -18,10 +18,149 @@ import (
 
 func init() {
 	Register(&Scenario{Prop: "C09", Name: "concurrent-create", Strict: true, Quick: 6, Thorough: 6, Run: runC09Create})
+	Register(&Scenario{Prop: "C09", Name: "rename-vs-create", Strict: true, Quick: 3, Thorough: 4, Run: runC09RenameVsCreate})
 	Register(&Scenario{Prop: "C09", Name: "delete-repo", Strict: true, Quick: 4, Thorough: 4, Run: func(rc *RunCtx) *simkit.Violation { return runC09Ops(rc, "delete") }})
 	Register(&Scenario{Prop: "C09", Name: "rename-repo", Strict: true, Quick: 4, Thorough: 4, Run: func(rc *RunCtx) *simkit.Violation { return runC09Ops(rc, "rename") }})
 	Register(&Scenario{Prop: "C09", Name: "delete-files", Strict: true, Quick: 4, Thorough: 4, Run: func(rc *RunCtx) *simkit.Violation { return runC09Ops(rc, "delete-files") }})
 	Register(&Scenario{Prop: "C09", Name: "delete-files-multi-index", Strict: false, Quick: 0, Thorough: 1, Run: func(rc *RunCtx) *simkit.Violation { return runC09Ops(rc, "delete-files-big") }})
+}
+
+// runC09RenameVsCreate: a rename to a new name races one or two creators of that name, under sampled orders of their store
+// calls. The new name goes to exactly one of them. When a creator wins, the new repository is the creator's - empty, with the
+// creator's descriptor - and the repository that was to be renamed is untouched; when the rename wins, the new name holds the
+// bundles and labels of the old one, which is gone. Nothing else changes in either case.
+func runC09RenameVsCreate(rc *RunCtx) *simkit.Violation {
+	const prop = "C09"
+	w := rc.W
+	t := w.W
+	d := newDM(rc)
+	d.CRC = t.Bool(1, 2)
+	old := []string{"alpha", "a"}[t.Choose(2)]
+	name := []string{"a-b", "alpha-x", "gamma"}[t.Choose(3)]
+	seedRepo(d, old)
+	seedRepo(d, "a0")
+	seedBundle(d, t, "a0", true, 1)
+	var ids []string
+	for i, n := 0, t.Range(1, 4); i < n; i++ {
+		ids = append(ids, seedBundle(d, t, old, true, t.Pick(1, 1, 2)))
+	}
+	nl := t.Range(0, 2)
+	for i := 0; i < nl; i++ {
+		ld := model.NewLabelDescriptor(model.LabelName(fmt.Sprintf("v%d", i)), model.LabelContributor(contributor))
+		ld.BundleID = ids[t.Choose(len(ids))]
+		d.VMet.Seed(model.GetArchivePathToLabel(old, ld.Name), mustYAML(ld))
+	}
+	before := snapshotExcept(d)
+	k := t.Range(1, 2)
+	ren := w.Client("renamer")
+	rst := d.Stores(ren)
+	rt := w.Go(ren, "rename-repo", func() (interface{}, error) { return nil, core.RenameRepo(old, name, rst) })
+	var creators []*simkit.Task
+	for i := 0; i < k; i++ {
+		i := i
+		cl := w.Client(fmt.Sprintf("creator%d", i))
+		st := d.Stores(cl)
+		creators = append(creators, w.Go(cl, "create", func() (interface{}, error) {
+			return nil, core.CreateRepo(model.RepoDescriptor{Name: name, Description: fmt.Sprintf("created by %d", i), Contributor: contributor}, st)
+		}))
+	}
+	// the rename makes many store calls, a creator one: so that the creators' writes land anywhere in the rename (and not
+	// nearly always before its first call) the rename runs ahead for a tape-chosen number of calls, then the tape decides
+	ahead := t.Pick(0, 1, 2, 3, 4, 5, 6, 8, 10, 14, 20, 30)
+	w.Prefer = func(parked []*simkit.Call) int {
+		if ren.Calls >= ahead {
+			return -1
+		}
+		for i, c := range parked {
+			if c.Client == ren {
+				return i
+			}
+		}
+		return -1
+	}
+	defer func() { w.Prefer = nil }()
+	w.Note("RenameRepo(%s -> %s) (%d bundles, %d labels) racing %d CreateRepo(%s); the rename runs %d calls ahead", old, name, len(ids), nl, k, name, ahead)
+	if v := w.Run(); v != nil {
+		v.Property = prop
+		return v
+	}
+	if pv := taskProblem(prop, rt, "RenameRepo"); pv != nil {
+		return pv
+	}
+	winners := []string{}
+	if rt.Err == nil {
+		winners = append(winners, "rename")
+	}
+	for i, tk := range creators {
+		if pv := taskProblem(prop, tk, "CreateRepo"); pv != nil {
+			return pv
+		}
+		if tk.Err == nil {
+			winners = append(winners, fmt.Sprintf("creator%d", i))
+		}
+	}
+	if len(winners) != 1 {
+		return Viol(prop, "create-not-exclusive", "RenameRepo-vs-CreateRepo", name, "a rename to %q and %d creators of %q ran concurrently: %d of them report success (%v)", name, k, name, len(winners), winners)
+	}
+	if w.Stats.Concurrent > 0 {
+		w.Probe("nontrivial")
+	}
+	after := snapshotExcept(d)
+	if winners[0] != "rename" {
+		w.Probe("rename-lost-to-creator")
+		// the new repository is the creator's: its descriptor and nothing else; everything else is as before
+		var rd model.RepoDescriptor
+		o := d.Meta.Peek(model.GetArchivePathToRepoDescriptor(name))
+		if o == nil {
+			return Viol(prop, "create-lost", "RenameRepo-vs-CreateRepo", name, "%s reported success but the repository descriptor does not exist", winners[0])
+		}
+		if err := yaml.Unmarshal(o.Data, &rd); err != nil || rd.Description != "created by "+strings.TrimPrefix(winners[0], "creator") {
+			return Viol(prop, "create-wrong-descriptor", "RenameRepo-vs-CreateRepo", name, "%s won but the stored descriptor says %q (err %v)", winners[0], rd.Description, err)
+		}
+		delete(after, "meta:"+model.GetArchivePathToRepoDescriptor(name))
+		if df := diffSnap(before, after); df != "" {
+			return Viol(prop, "other-repo-touched", "RenameRepo-vs-CreateRepo", name, "RenameRepo(%s->%s) lost the name to %s and failed (%v), yet it %s", old, name, winners[0], rt.Err, df)
+		}
+		return nil
+	}
+	w.Probe("rename-won")
+	for _, b := range []*simkit.Backend{d.Meta, d.VMet} {
+		for _, p := range []string{"bundles/", "labels/", "repos/"} {
+			if left := b.KeysWithPrefix(p + old + "/"); len(left) > 0 {
+				return Viol(prop, "rename-left-old", "RenameRepo-vs-CreateRepo", left[0], "after RenameRepo, %d objects remain under the old name (first: %s)", len(left), left[0])
+			}
+		}
+	}
+	// every object of the old repository is now under the new name, byte for byte (the repository descriptor carries the new name)
+	for _, key := range sortedKeys(before) {
+		for _, p := range []string{"meta:bundles/", "vmeta:labels/"} {
+			if strings.HasPrefix(key, p+old+"/") {
+				nk := p + name + "/" + strings.TrimPrefix(key, p+old+"/")
+				if got, ok := after[nk]; !ok {
+					return Viol(prop, "rename-lost-object", "RenameRepo-vs-CreateRepo", nk, "after RenameRepo(%s->%s), %s has no counterpart %s", old, name, key, nk)
+				} else if strings.HasSuffix(key, ".yaml") && strings.Contains(key, "bundle-files-") && !bytes.Equal(got, before[key]) {
+					return Viol(prop, "rename-changed-files", "RenameRepo-vs-CreateRepo", nk, "after RenameRepo(%s->%s), the file list %s differs from %s", old, name, nk, key)
+				}
+			}
+		}
+	}
+	for key := range after {
+		if _, ok := before[key]; ok {
+			continue
+		}
+		if !strings.HasPrefix(key, "meta:bundles/"+name+"/") && !strings.HasPrefix(key, "vmeta:labels/"+name+"/") && !strings.HasPrefix(key, "meta:repos/"+name+"/") {
+			return Viol(prop, "other-repo-touched", "RenameRepo-vs-CreateRepo", key, "RenameRepo(%s->%s) created %s", old, name, key)
+		}
+	}
+	for key := range before {
+		if _, ok := after[key]; ok && !bytes.Equal(before[key], after[key]) {
+			return Viol(prop, "other-repo-touched", "RenameRepo-vs-CreateRepo", key, "RenameRepo(%s->%s) modified %s", old, name, key)
+		}
+		if _, ok := after[key]; !ok && !strings.Contains(key, "/"+old+"/") {
+			return Viol(prop, "other-repo-touched", "RenameRepo-vs-CreateRepo", key, "RenameRepo(%s->%s) deleted %s", old, name, key)
+		}
+	}
+	return nil
 }
 
 func runC09Create(rc *RunCtx) *simkit.Violation {
